@@ -58,6 +58,8 @@ structure St where
   envHostaliases : Option Bytes := none
   hostDomain : Option Bytes := none
   chans : List (Nat × Chan) := []
+  /-- application socket functions installed on a handle (op `appif`): one more interface than the libc table knows -/
+  appIfs : List (Nat × (Bytes × Nat)) := []
 
 def isVirtualPath (p : String) : Bool :=
   p = "/etc/resolv.conf" || p = "/etc/nsswitch.conf" || p = "/etc/netsvc.conf" || p = "/etc/svc.conf" ||
@@ -250,6 +252,15 @@ def showSaved (o : Options) (m : Mask) : String :=
   f m.udpMaxQueries ("udpmaxq=" ++ toString o.udpMaxQueries) ++ f m.queryCache ("qcache=" ++ toString o.qcacheMaxTtl) ++
   f m.serverFailover ("retry=" ++ toString o.retryChance ++ "/" ++ toString o.retryDelay)
 
+/-- interfaces a channel can resolve: the libc table first, then the application's extra one -/
+def St.ifsFor (s : St) (h : Nat) : Ifaces :=
+  some (s.ifaces ++ (match s.appIfs.find? (fun x => x.1 == h) with | some e => [e.2] | none => []))
+
+def St.envFor (s : St) (h : Nat) : SysEnv := { s.sysEnv with ifs := s.ifsFor h }
+
+def St.setAppIf (s : St) (h : Nat) (e : Option (Bytes × Nat)) : St :=
+  { s with appIfs := (s.appIfs.filter (fun x => x.1 != h)) ++ (match e with | some v => [(h, v)] | none => []) }
+
 def St.setChan (s : St) (h : Nat) (c : Option Chan) : St :=
   match c with
   | some x => { s with chans := update h x s.chans }
@@ -272,24 +283,27 @@ def chanOp (s : St) (cmd : String) (h : Nat) (args : List String) : St × String
         | .ok (o, m) => initOptions s.sysEnv (some o) m
         | .error e => .error e
       (match r with
-        | .ok x => (s.setChan dn (some x), "st=ok " ++ showEff x)
-        | .error e => (s.setChan dn none, "st=" ++ e.cls))
+        | .ok x => ((s.setAppIf dn none).setChan dn (some x), "st=ok " ++ showEff x)
+        | .error e => ((s.setAppIf dn none).setChan dn none, "st=" ++ e.cls))
     | "dup", [d] =>
       let dn := d.toNat!
       if dn = h || dn ≥ 8 then (s, "bad-handle") else
-      (match dup c s.sysEnv with
-        | .ok x => (s.setChan dn (some x), "st=ok " ++ showEff x)
-        | .error e => (s.setChan dn none, "st=" ++ e.cls))
+      -- ares_dup copies the socket functions before it re-applies the server list
+      let app := (s.appIfs.find? (fun x => x.1 == h)).map (·.2)
+      (match dup c (s.envFor h) with
+        | .ok x => ((s.setAppIf dn app).setChan dn (some x), "st=ok " ++ showEff x)
+        | .error e => ((s.setAppIf dn none).setChan dn none, "st=" ++ e.cls))
+    | "appif", [n, i] => (s.setAppIf h (some (unhexC n, i.toNat!)), "st=ok")
     | "csv", [] => (s, hexOpt (getServersCsv c))
     | "csvfix", [] =>
       let csv1 := getServersCsv c
       let r : Status × Chan := match csv1 with
-        | some t => setServersCsv c s.ifs (cstr t)
+        | some t => setServersCsv c (s.ifsFor h) (cstr t)
         | none => (.enomem, c)
       (s.setChan h (some r.2), "st=" ++ r.1.cls ++ " csv1=" ++ hexOpt csv1 ++ " csv2=" ++ hexOpt (getServersCsv r.2) ++ " " ++
         showServers r.2.servers)
     | "setcsv", [t] =>
-      let r := setServersCsv c s.ifs (unhexC t)
+      let r := setServersCsv c (s.ifsFor h) (unhexC t)
       (s.setChan h (some r.2), "st=" ++ r.1.cls ++ " " ++ showServers r.2.servers ++ " mask=" ++ showHexNat (natOfMask r.2.optmask))
     | "setsortlist", [t] =>
       let r := setSortlist c (unhexC t)
@@ -301,9 +315,9 @@ def chanOp (s : St) (cmd : String) (h : Nat) (args : List String) : St × String
       let c' := setServersPorts c l
       (s.setChan h (some c'), "st=ok " ++ showServers c'.servers ++ " mask=" ++ showHexNat (natOfMask c'.optmask))
     | "reinit", [] =>
-      let c' := reinit c s.sysEnv
+      let c' := reinit c (s.envFor h)
       (s.setChan h (some c'), "st=ok " ++ showEff c')
-    | "destroy", [] => (s.setChan h none, "ok")
+    | "destroy", [] => ((s.setAppIf h none).setChan h none, "ok")
     | _, _ => (s, "bad-op")
 
 def parseOutcome (o : String) : Status :=
@@ -380,8 +394,8 @@ def step (s : St) (toks : List String) : St × String :=
     let useNull := kvInt rest "null" != 0
     let m := if useNull then ({} : Mask) else maskOfNat ((toInt32' (kvInt rest "mask")) % 4294967296).toNat
     (match initOptions s.sysEnv (if useNull then none else some (parseOptions rest)) m with
-      | .ok c => (s.setChan hn (some c), "st=ok " ++ showEff c)
-      | .error e => (s.setChan hn none, "st=" ++ e.cls))
+      | .ok c => ((s.setAppIf hn none).setChan hn (some c), "st=ok " ++ showEff c)
+      | .error e => ((s.setAppIf hn none).setChan hn none, "st=" ++ e.cls))
   | ["pton", fam, h] =>
     let f := if fam = "4" then Family.inet else if fam = "6" then Family.inet6 else Family.unspec
     match dnsPton f (unhexC h) with
@@ -402,6 +416,7 @@ def step (s : St) (toks : List String) : St × String :=
   | [cmd, h, a] =>
     if ["saveinit", "dup", "setcsv", "setsortlist", "setports"].contains cmd then chanOp s cmd h.toNat! [a]
     else (s, "bad-op")
+  | ["appif", h, n, i] => chanOp s "appif" h.toNat! [n, i]
   | _ => (s, "bad-op")
 
 end TextDriver
